@@ -155,18 +155,71 @@ func (l *LogWrap) sig() int64 {
 	return l.appended*1000003 + l.consumed + int64(len(l.handed))
 }
 
+// ---- in-memory message log ------------------------------------------------------------------
+
+// memLog is a plain in-memory implementation of the message-log interface, used where the
+// commit-log dependency must stay out of the picture (race-detector runs: the property's
+// scope is wasp's own shared state, and the dependency has unsynchronised reads of its own).
+type memLog struct {
+	mu   sync.Mutex
+	cond *sync.Cond
+	msgs []*packet.Publish
+}
+
+func newMemLog() *memLog { l := &memLog{}; l.cond = sync.NewCond(&l.mu); return l }
+
+func (l *memLog) Close() error { return nil }
+func (l *memLog) Append(p *packet.Publish) error {
+	l.mu.Lock()
+	l.msgs = append(l.msgs, p)
+	l.cond.Broadcast()
+	l.mu.Unlock()
+	return nil
+}
+func (l *memLog) Get(o uint64) (*packet.Publish, error) {
+	l.mu.Lock()
+	defer l.mu.Unlock()
+	if o >= uint64(len(l.msgs)) {
+		return nil, errors.New("memlog: offset out of range")
+	}
+	return l.msgs[o], nil
+}
+func (l *memLog) Consume(ctx context.Context, name string, f func(uint64, *packet.Publish) error) error {
+	go func() { <-ctx.Done(); l.mu.Lock(); l.cond.Broadcast(); l.mu.Unlock() }()
+	next := 0
+	for {
+		l.mu.Lock()
+		for next >= len(l.msgs) && ctx.Err() == nil {
+			l.cond.Wait()
+		}
+		if ctx.Err() != nil {
+			l.mu.Unlock()
+			return nil
+		}
+		p := l.msgs[next]
+		l.mu.Unlock()
+		if err := f(uint64(next), p); err != nil {
+			return err
+		}
+		next++
+	}
+}
+func (l *memLog) Stream(ctx context.Context, c stream.Consumer, f func(*packet.Publish) error) error {
+	return errors.New("memlog: Stream not supported")
+}
+
 // ---- local registry wrapper ------------------------------------------------------------
 
 // LocalWrap wraps the node's real session registry and remembers which connection belongs
 // to which session id.
 type LocalWrap struct {
-	real wasp.LocalState
-	mu   sync.Mutex
-	byConn map[*Conn]string
+	real    wasp.LocalState
+	mu      sync.Mutex
+	byConn  map[*Conn]string
 	deleted map[string]bool
 }
 
-func (l *LocalWrap) Get(id string) *sessions.Session { return l.real.Get(id) }
+func (l *LocalWrap) Get(id string) *sessions.Session   { return l.real.Get(id) }
 func (l *LocalWrap) ListSessions() []*sessions.Session { return l.real.ListSessions() }
 func (l *LocalWrap) Create(id string, s *sessions.Session) *sessions.Session {
 	if c, ok := s.ReadWriter().(*Conn); ok {
@@ -260,7 +313,7 @@ func (m *MountAuth) Authenticate(ctx context.Context, app auth.ApplicationContex
 
 type nopTaps struct{}
 
-func (nopTaps) Run(ctx context.Context)                                           {}
+func (nopTaps) Run(ctx context.Context)                                         {}
 func (nopTaps) Dispatch(ctx context.Context, s string, p *packet.Publish) error { return nil }
 
 // ---- node -------------------------------------------------------------------------------
@@ -300,6 +353,7 @@ type NodeOpts struct {
 	Auth     wasp.AuthenticationHandler // nil = MountAuth
 	Dir      string                     // "" = fresh temp dir
 	Prefill  []*packet.Publish          // appended to the log before the node starts
+	MemLog   bool                       // in-memory message log instead of the commit log on disk
 	NoServer bool
 }
 
@@ -318,8 +372,11 @@ func (cl *Cluster) AddNode(o NodeOpts) (*Node, error) {
 		}
 		n.Dir = d
 	}
-	real, err := messages.New(n.Dir)
-	if err != nil {
+	var real messages.Log
+	var err error
+	if o.MemLog {
+		real = newMemLog()
+	} else if real, err = messages.New(n.Dir); err != nil {
 		return nil, err
 	}
 	n.Log = &LogWrap{real: real, act: &cl.activity, seq: &cl.seq, consumed: -1}
